@@ -636,13 +636,16 @@ func c16Mutate(c *Ctx, marked string) string {
 }
 
 func runC16(c *Ctx) {
-	c.rule = "type-directed random programs as in C01 whose free identifiers are attributes of the argument map m (19 attributes: ints, lists eager/lazy, string, bool, float, maps, closures), attribute references emitted through a marker so that exp (x) and exp' (m.x) come from one generation; a third of the programs wrapped into 1..3 nested closures (list map, immediately applied, attribute list map) and a recursive func; attribute names colliding with generated let/parameter/func names (shadowing), keys named pi/true/abs/max/m present in every map (constant, static function and the map win in both spellings); each program: GenerateWithMap(exp) vs Generate(exp') with optimizer off and on, evaluated on the argument map in 6 representations (list map, put chain, merge, hash map, evaluated literal, put on merge) plus 2 maps with missing attributes; trees of both parsers compared with each other and with the Lean resolver (map mode, expand, explicit mode); a mutated (malformed) stream and programs binding m themselves (correspondence only); non-trivial = distinct program with an attribute use inside at least one closure or func body"
+	c.rule = "type-directed random programs as in C01 whose free identifiers are attributes of the argument map m (19 attributes: ints, lists eager/lazy, string, bool, float, maps, closures), attribute references emitted through a marker so that exp (x) and exp' (m.x) come from one generation; a third of the programs wrapped into 1..3 nested closures (list map, immediately applied, attribute list map) and a recursive func; attribute names colliding with generated let/parameter/func names (shadowing), keys named pi/true/abs/max/m present in every map (constant, static function and the map win in both spellings); each program: GenerateWithMap(exp) vs Generate(exp') with optimizer off and on, evaluated on the argument map in 6 representations (list map, put chain, merge, hash map, evaluated literal, put on merge) plus 2 maps with missing attributes; trees of both parsers compared with each other and with the Lean resolver (map mode, expand, explicit mode); a mutated (malformed) stream and programs binding m themselves (correspondence only); generator histories (GenerateWithMap calls with two map names interleaved with AddConstant of names that were attributes before, optimizer off/on); non-trivial = distinct program with an attribute use inside at least one closure or func body"
 	c.assume = append(c.assume,
 		"the grammar (text -> tree shape) is shared: the raw tree sent to the model is produced by the real parser with a chain resolving every name to a plain identifier (literal let values wrapped so that no let is dissolved); C03/C04 cover the grammar",
 		"the IsFunc mark of an identifier node is not part of the model's AST (P2.Lang.gen reconstructs it); error message texts are not compared",
 		"on hash-map representations programs that iterate the argument map are order dependent: a disagreement is only reported if both functions are self-consistent over 6 evaluations")
 	env := newC16Env()
 	n := c.Pick(6000, 80000)
+	if os.Getenv("VERIF_REPLAY") == "" {
+		c16Histories(c, c.Pick(400, 4000))
+	}
 	maxDepth := c.Pick(6, 7)
 
 	var cases []*c16Case
@@ -857,6 +860,89 @@ func runC16(c *Ctx) {
 					rp[k] = x
 				}
 				c.Violation(vi.Sig, vi.What, rp)
+			}
+		}
+	}
+}
+
+// ---- generator histories ---------------------------------------------------------------------------
+
+// c16Histories: one generator used for a sequence of GenerateWithMap/Generate calls (two map names) between
+// which constants are registered (AddConstant is legal at any time). After every step each program must behave
+// in map mode like its explicit spelling under the constants registered at that moment: a name that has become
+// a constant denotes the constant from then on, also inside closures and funcs, the others stay attributes.
+func c16Histories(c *Ctx, n int) {
+	names := []string{"k0", "k1", "k2", "k3", "k4", "x"}
+	templates := []string{"@0 + @1", "@0 * 10 + @1 - @2", "[1,2,3].map(e->e*@0+@1).sum()", "let q=@0; (y->y+q+@1)(@2)", "func g(p) if p<=0 then @0 else g(p-1)+@1; g(2)",
+		"{r:@0, s:[@1].map(e->e+@2)}.string()", "[@0,@1].map(e->[@2].map(i->i+e).sum()).string()", "if @0 > @1 then @2 else @0", "try @0/0 catch @1"}
+	for h := 0; h < n; h++ {
+		rng := c.rng
+		for _, opt := range []bool{false, true} {
+			fg := newValueFG(opt)
+			isConst := map[string]bool{}
+			var log []string
+			mapName := "m"
+			keys := append([]string{}, names...)
+			vals := make([]value.Value, len(keys))
+			for i := range keys {
+				vals[i] = value.Int(int64(i + 1))
+			}
+			arg := buildMap(keys, vals, []int{0, 1, 2, 5}[h%4])
+			steps := 4 + rng.Intn(6)
+			for s := 0; s < steps; s++ {
+				if rng.Intn(3) == 0 {
+					k := names[rng.Intn(len(names))]
+					if !isConst[k] {
+						isConst[k] = true
+						fg.AddConstant(k, value.Int(int64(100*(1+len(isConst)))))
+						log = append(log, "AddConstant "+k)
+					}
+					continue
+				}
+				if rng.Intn(4) == 0 {
+					mapName = []string{"m", "mm"}[rng.Intn(2)]
+				}
+				t := templates[rng.Intn(len(templates))]
+				exp, expl := t, t
+				for i := 0; i < 3; i++ {
+					k := names[rng.Intn(len(names))]
+					exp = strings.ReplaceAll(exp, "@"+itoa(i), k)
+					if isConst[k] {
+						expl = strings.ReplaceAll(expl, "@"+itoa(i), k)
+					} else {
+						expl = strings.ReplaceAll(expl, "@"+itoa(i), mapName+"."+k)
+					}
+				}
+				log = append(log, "GenerateWithMap "+exp+" "+mapName)
+				c.Case("hist|"+strings.Join(log, ";")+fmt.Sprint(opt, h%4), len(isConst) > 0)
+				c.Count("history-step")
+				outcome := func(gen func() (funcGen.Func[value.Value], bool, error)) (out string) {
+					defer func() {
+						if r := recover(); r != nil {
+							out = fmt.Sprintf("PANIC %v", r)
+						}
+					}()
+					f, _, err := gen()
+					if err != nil {
+						return "GENERR"
+					}
+					v, err := f.Eval(arg)
+					if err != nil {
+						return "ERR"
+					}
+					cv, err := canonValue(v)
+					if err != nil {
+						return "ERR"
+					}
+					return cv
+				}
+				got := outcome(func() (funcGen.Func[value.Value], bool, error) { return fg.GenerateWithMap(exp, mapName) })
+				want := outcome(func() (funcGen.Func[value.Value], bool, error) { return fg.Generate(expl, mapName) })
+				if got != want {
+					c.Violation("mapmode-differs-from-explicit:after-add-constant", "after constants were registered on a generator that had generated before, GenerateWithMap(exp, m) and Generate(exp', m) give different outcomes",
+						map[string]any{"history": append([]string{}, log...), "exp": exp, "exp_explicit": expl, "map_name": mapName, "optimizer": opt, "map_mode": got, "explicit": want})
+					break
+				}
 			}
 		}
 	}
